@@ -359,7 +359,7 @@ def program_layouts(chk, tier):
         src = perturb.text_of(lay)
         cases.append({"id": b["id"], "beh": b, "jobs": [dict(name="P", src=base, std="f2008", ic=True), dict(name="L", src=src, std="f2008", ic=True),
                                                            dict(name="Lk", src=src, std="f2008", ic=False)]})
-    res = pmap(obs.run_jobs, [{"id": c["id"], "jobs": c["jobs"]} for c in cases], timeout=120)
+    res = pmap(obs.run_jobs, [{"id": c["id"], "jobs": c["jobs"]} for c in cases], timeout=120, batch=16)
     D = session.Digests()
     ctr = [0]
     events = []
